@@ -284,4 +284,26 @@ CHECKS = {
             {"harness": "VH_C14", "quick": {"skip": 2}, "thorough": {"skip": 4}, "covers": ["C14:called"]},
         ],
     },
+    "C15": {
+        "explanation": "Symbolic execution of handler4LogSlog.Enabled/Handle/WithAttrs/WithGroup/withFields, convertLogSlogLevel, "
+                       "convertAttrToField, convertLogSlogRecordAttrs, logsloglevel2Level, WriteThru, NewLogLogger, handlerWriter.Write, "
+                       "writeInternal, together with the standard library's log/slog Record/Value/Attr accessors and log.Logger.output "
+                       "(real SSA). A: Enabled == the logger's gating for the four standard levels, all int64 logger levels. B: a Record "
+                       "with symbolic message and attributes of every log/slog kind (Bool, Int64, Uint64, Float64, String, Duration, Time, "
+                       "nested Group, LogValuer) is handled: exactly one Write, byte-identical to WriteThru of the same time/message/"
+                       "attributes at the namesake severity (logfmt and JSON). C: derived handlers keep level, destination, format and "
+                       "add attributes. D: for every (logger level, bridge severity) pair and symbolic message (with/without trailing "
+                       "newline) the bridge emits one record at its severity iff the logger admits it. E: level maps for all int64 values.",
+        "bounds": {"quick": "B: message <= 1 byte, <= 1 attribute, group depth 1; D: printable messages <= 2 bytes, 7x6 level pairs",
+                   "thorough": "B: message <= 2 bytes, <= 2 attributes, depth 2; D: messages <= 3 bytes"},
+        "outside": "handler option combinations of NewSlogHandler (they mutate process-wide flags); chains of more than 2 derivations",
+        "assumptions": ["log/slog's own elision of empty groups from a Record is the standard library's behaviour"],
+        "runs": [
+            {"harness": "VH_C15A", "covers": ["C15A:asked"]},
+            {"harness": "VH_C15B", "quick": {"msg": 1, "attrs": 1, "depth": 1}, "thorough": {"msg": 2, "attrs": 2, "depth": 1}, "covers": ["C15B:compared"]},
+            {"harness": "VH_C15C", "covers": ["C15C:handled"]},
+            {"harness": "VH_C15D", "quick": {"msg": 2}, "thorough": {"msg": 3}, "covers": ["C15D:printed"]},
+            {"harness": "VH_C15E", "covers": ["C15E:standard", "C15E:terminating"]},
+        ],
+    },
 }
